@@ -26,6 +26,32 @@ def gen(rng, tier):
         G.count('density', dens)
         line = "ops %s %s F %s" % (KO.KIND[d['kind']], S.args(d), ",".join(map(str, dens)))
         out.append(Case('refine-op', line, dict(shape=d, dens=dens)))
+    # helper level: explicit knot_list / add_knot_list (single element, last span only, duplicates of
+    # existing knots, values repeated in both lists)
+    for _ in range(30 if tier == 'quick' else 400):
+        d = S.rand_curve(rng, maxp=4, max_interior=3, allow_range=False)
+        p, kv, n_ = d['p'], d['kv'], d['n']
+        dom = sorted(set(kv[p:n_ + 1]))
+        def pick():
+            r_ = rng.random()
+            if r_ < .3:
+                return rng.choice(dom)                                    # an existing knot (or a domain end)
+            if r_ < .55:
+                a_, b_ = dom[-2], dom[-1]                                 # inside the LAST span
+                return a_ + (b_ - a_) * F(rng.randint(1, 9), 10)
+            return kv[p] + (kv[n_] - kv[p]) * F(rng.randint(1, 99), 100)
+        mode = rng.random()
+        kl, add = None, []
+        if mode < .5:
+            kl = sorted(set(pick() for _ in range(rng.randint(1, 3))))
+        if mode > .3:
+            add = [pick() for _ in range(rng.randint(1, 2))]
+            if kl and rng.random() < .4:
+                add.append(rng.choice(kl))                                # the same value in both lists
+        dens = rng.choice([1, 1, 2])
+        G.count('helper_lists', (len(kl) if kl is not None else 'default', len(add)))
+        line = "refh %d %s %s %s %s %d" % (p, show_list(kv), show_pts(d['P']), 'default' if kl is None else show_list(kl), show_list(add), dens)
+        out.append(Case('refine-helper', line, dict(shape=d, kl=kl, add=add, dens=dens)))
     # tolerance probes: two interior knots closer together than 1e-3 but further apart than the 1e-7 of
     # the refinement's own zero test (a loosened tolerance would copy instead of blend)
     for _ in range(8 if tier == 'quick' else 60):
@@ -45,9 +71,24 @@ def gen(rng, tier):
     return out
 
 
+def _helper(c):
+    from geomdl import helpers
+    from core import qpts
+    d = c.data['shape']
+    kw = dict(density=c.data['dens'])
+    if c.data['kl'] is not None:
+        kw['knot_list'] = qs(c.data['kl'])
+    if c.data['add']:
+        kw['add_knot_list'] = qs(c.data['add'])
+    return helpers.knot_refinement(d['p'], qs(d['kv']), qpts(d['P']), **kw)
+
+
 def impl(c):
     from geomdl import operations
     d = c.data['shape']
+    if c.kind == 'refine-helper':
+        Q, kv2 = _helper(c)
+        return "%s %s" % (show_list(kv2), show_pts(Q))
     o = S.build(d)
     operations.refine_knotvector(o, list(c.data['dens']))
     return KO.show_shape(S.from_obj(o))
@@ -57,6 +98,27 @@ def oracle(c):
     from geomdl import operations
     d = c.data['shape']
     dens = c.data['dens']
+    if c.kind == 'refine-helper':
+        p, kv, n_ = d['p'], d['kv'], d['n']
+        base = list(c.data['kl']) if c.data['kl'] is not None else kv[p:len(kv) - p]
+        ks = sorted(set(base + list(c.data['add'])))
+        for _ in range(dens):
+            ks = sorted(set(ks + [a + (b - a) / 2 for a, b in zip(ks, ks[1:])]))
+        X = [x for x in ks for _ in range(max(0, p - sum(1 for y in kv if y == x)))]
+        try:
+            Q, kv2 = _helper(c)
+        except Exception as e:
+            if not X:
+                return None          # nothing to refine: the documented "Cannot refine" error
+            return "helpers.knot_refinement raised %s: %s" % (type(e).__name__, e)
+        kv2 = [x.q if hasattr(x, 'q') else F(x) for x in kv2]
+        Q = [[x.q if hasattr(x, 'q') else F(x) for x in pt] for pt in Q]
+        if kv2 != sorted(kv + X):
+            return "helper-level refinement: the new knot vector is not the old one plus the listed knots raised to multiplicity %d" % p
+        if len(Q) != len(kv2) - p - 1:
+            return "helper-level refinement: %d control points for %d knots" % (len(Q), len(kv2))
+        after = dict(d, kv=kv2, P=Q, n=len(Q))
+        return KO.same_points(d, after, KO.probe_params(after))
     o = S.build(d)
     before = S.from_obj(o)
     can = []
